@@ -77,7 +77,7 @@ func runC12(run *Run, replay string) {
 				pairs = append(pairs, L(posS(pos), obs))
 			}
 			if len(pairs) > 0 {
-				run.Case("hovers", []S{bodyS(body), bodySchemaS(sc.Main.Schema), pairs, Str(string(sc.Src))}, T("allok"))
+				run.Case("hovers", []S{bodyS(body), sc.schemaS(), pairs, Str(string(sc.Src))}, T("allok"))
 			}
 			if len(run.Res.Samples) < 2 && len(pairs) > 5 {
 				run.Sample(map[string]interface{}{"src": string(sc.Src), "positions": len(pairs)})
